@@ -184,6 +184,10 @@ impl TryFrom<&str> for FeelDaysAndTimeDuration {
   /// Converts a text form of the days and time duration into [FeelDaysAndTimeDuration] struct.
   fn try_from(value: &str) -> Result<Self, Self::Error> {
     if let Some(captures) = RE_DAYS_AND_TIME.captures(value) {
+      if value.ends_with('T') {
+        // the time designator must be followed by at least one time component
+        return Err(invalid_date_and_time_duration_literal(value.to_string()));
+      }
       let mut is_valid = false;
       let mut nanoseconds = 0_i128;
       if let Some(days_match) = captures.name("days") {
